@@ -453,6 +453,7 @@ func cmdReflectReplay(args []string) {
 	sc.Buffer(make([]byte, 1<<20), 1<<30)
 	var ops, rdops []ROp
 	n, bad, reads, states := 0, 0, 0, 0
+	nilOriginsN, nilChecks := 0, 0
 	emit := func(v reflVerdict) {
 		bad++
 		b, _ := json.Marshal(v)
@@ -470,6 +471,14 @@ func cmdReflectReplay(args []string) {
 			if err := json.Unmarshal([]byte(line[6:]), &rdops); err != nil {
 				die("rdops: %v", err)
 			}
+		case strings.HasPrefix(line, "NIL "):
+			var nl nilLine
+			if err := json.Unmarshal([]byte(line[4:]), &nl); err != nil {
+				die("nil: %v", err)
+			}
+			o, c := nilSuite(nl, emit)
+			nilOriginsN += o
+			nilChecks += c
 		case strings.HasPrefix(line, "STATE "):
 			var e reflEdge
 			if err := json.Unmarshal([]byte(line[6:]), &e); err != nil {
@@ -549,7 +558,7 @@ func cmdReflectReplay(args []string) {
 			}
 		}
 	}
-	b, _ := json.Marshal(map[string]any{"summary": true, "edges": n, "bad": bad, "ops": len(ops), "rdops": len(rdops), "reads": reads, "states": states})
+	b, _ := json.Marshal(map[string]any{"summary": true, "edges": n, "bad": bad, "ops": len(ops), "rdops": len(rdops), "reads": reads, "states": states, "nil_origins": nilOriginsN, "nil_checks": nilChecks})
 	w.Write(b)
 	w.WriteByte('\n')
 	_ = fmt.Sprint
